@@ -23,6 +23,7 @@ type Case struct {
 	Both      bool       `json:"both"`                // also run burst and paced and compare (in-order cases)
 	HookSeed  uint64     `json:"hook_seed,omitempty"` // seed of the engine's build-tag-guarded perturbation points (0 = off)
 	LongBurst bool       `json:"long_burst,omitempty"`
+	Nested    bool       `json:"nested,omitempty"` // the key column lives under a map column: GROUP BY dev.g (selected AS g)
 }
 
 // genLongBurst: 120-500 rows with strictly increasing timestamps over 1-2 keys, most of them further than the timeout
@@ -116,12 +117,29 @@ func genCase(t *rapid.T) Case {
 	}
 	c.HookSeed = hookSeed(t)
 	c.Both = !reordered && rapid.IntRange(0, 2).Draw(t, "both") == 0
+	c.Nested = rapid.IntRange(0, 4).Draw(t, "nested") == 0
 	return c
 }
 
 func sqlOf(c Case) string {
-	return fmt.Sprintf("SELECT g, count(*) AS c, collect(id) AS ids, window_start() AS ws, window_end() AS we FROM stream GROUP BY g, SessionWindow('%dms') %s",
-		c.TimeoutMs, et.With("ms", c.OOOMs, 0))
+	sel, key := "g", "g"
+	if c.Nested {
+		sel, key = "dev.g AS g", "dev.g"
+	}
+	return fmt.Sprintf("SELECT %s, count(*) AS c, collect(id) AS ids, window_start() AS ws, window_end() AS we FROM stream GROUP BY %s, SessionWindow('%dms') %s",
+		sel, key, c.TimeoutMs, et.With("ms", c.OOOMs, 0))
+}
+
+// engineRow moves the key column under the map column dev when the case says so.
+func engineRow(c Case, m map[string]any) map[string]any {
+	if !c.Nested {
+		return m
+	}
+	if g, ok := m["g"]; ok {
+		delete(m, "g")
+		m["dev"] = map[string]any{"g": g, "other": 1}
+	}
+	return m
 }
 
 type sess struct {
@@ -148,7 +166,7 @@ func feed(c Case, pauses []int, res *pbt.Result) ([]sess, []run.Delivery, bool) 
 		}
 	}
 	for i, e := range all {
-		in.Emit(et.Row(e, "ms", "int64", true))
+		in.Emit(engineRow(c, et.Row(e, "ms", "int64", true)))
 		if i < len(pauses) {
 			et.DoPause(pauses[i])
 		}
@@ -344,7 +362,7 @@ func features(c Case) []string {
 
 var spec = pbt.Spec[Case]{
 	ID:          "C10",
-	Rule:        "generated: event-time session windows (timeout 0.5-5 s, 1-3 keys, per-key gaps from {0,1ms,T/4,T/2,T-1,T,T+1,3T}, OOO 0 / 1 s / T/2 / 2T / 3T with within-tolerance swaps of neighbours or arbitrary within-tolerance displacements (arrival order = order of ts + jitter), burst/paced/mixed feeding, flush row from another key; 5% long bursts of 120-500 strictly increasing rows, most closing a session, then silence). oracle: reference sessionizer invariants - every accepted event in exactly one session of its key, consecutive gaps inside a session <= timeout, accepted neighbours closer than the timeout share a session, window_start = earliest ts, window_end = latest + timeout, no early firing, burst == paced for in-order input. non-trivial = a key with a gap above the timeout or a reordered accepted row; distinct by case hash",
+	Rule:        "generated: event-time session windows (timeout 0.5-5 s, 1-3 keys in a plain column or, one case in five, nested under a map column (GROUP BY dev.g), per-key gaps from {0,1ms,T/4,T/2,T-1,T,T+1,3T}, OOO 0 / 1 s / T/2 / 2T / 3T with within-tolerance swaps of neighbours or arbitrary within-tolerance displacements (arrival order = order of ts + jitter), burst/paced/mixed feeding, flush row from another key; 5% long bursts of 120-500 strictly increasing rows, most closing a session, then silence). oracle: reference sessionizer invariants - every accepted event in exactly one session of its key, consecutive gaps inside a session <= timeout, accepted neighbours closer than the timeout share a session, window_start = earliest ts, window_end = latest + timeout, no early firing, burst == paced for in-order input. non-trivial = a key with a gap above the timeout or a reordered accepted row; distinct by case hash",
 	Assumptions: []string{"input never dropped (block strategy)", "gap == timeout may or may not split", "late-on-arrival rows may be reported or not"},
 	Gen:         genCase,
 	Run:         runCase,
